@@ -63,6 +63,19 @@ impl Chain {
         Chain { blocks }
     }
 
+    /// the base chain with a block range ([15,30[) that holds a single block with a single
+    /// transaction (its hash begins with a digit, as two thirds of hexadecimal hashes do)
+    pub fn sparse() -> Chain {
+        let mut c = Chain::base();
+        c.blocks.retain(|b| !(RANGE_LEN..2 * RANGE_LEN).contains(&*b.block_number) || *b.block_number == 20);
+        for b in c.blocks.iter_mut() {
+            if *b.block_number == 20 {
+                b.transactions_hashes = vec!["9tx-hash-20-lone".to_string()];
+            }
+        }
+        c
+    }
+
     /// another chain of the same shape in which every block hash and transaction hash differs
     pub fn forged(&self) -> Chain {
         let mut c = self.clone();
